@@ -57,6 +57,15 @@ CHECKS = {
             "requires_grad/is_leaf/grad_fn; a probe after every context exit checks the restored mode.",
             "Does not generate nested re-entry of the same context object; mixed retain cases are recorded, not asserted.",
             "DESIGN.md 4/C07"),
+    "C08": ("model-based property testing (Hypothesis) over generated optimizer histories against reference optimizers",
+            "Histories of {backward (exact gradients), zero_grad, step} with drawn hyper-parameters, parameter sets "
+            "(some frozen, one not given) and dtypes are run for SGD/Adam/AdamW next to float64 reference "
+            "implementations of the published update rules; after every step: trajectory equality, same ndarray "
+            "object, dtype/shape, frozen/not-given parameters byte-identical, gradients untouched; plus the SGD "
+            "constructor contract.",
+            "Reference optimizers transcribe the torch.optim documentation pseudo-code; steps are only issued once "
+            "every trainable parameter has a gradient; float32 trajectories are compared per step at 2e-5 relative.",
+            "DESIGN.md 4/C08"),
     "C09": ("property-based differential testing (Hypothesis) against high-precision stable reference formulas",
             "Generated-input search over float32/float64 inputs up to 1e4 (exp-overflow thresholds salted in) and "
             "logit rows with spreads up to 2e4 for sigmoid/tanh/selu/softmax/log_softmax/cross-entropy/"
@@ -79,6 +88,23 @@ CHECKS = {
             "independence; documented in-place calls touch only what they document.",
             "Assumes Tensor(ndarray) wraps the array without copying (checked per case, otherwise the case is skipped).",
             "DESIGN.md 4/C11"),
+    "C12": ("model-based property testing (Hypothesis) over generated module-tree histories",
+            "Histories creating modules (custom, Linear, Sequential positional/OrderedDict) and parameters, assigning / "
+            "re-assigning / registering attributes, sharing children between parents and calling "
+            "train/eval/freeze/unfreeze/zero_grad on any node are checked after every command against an explicit "
+            "ordered, de-duplicated registry model (parameters(), submodules(), num_params split, training flags, "
+            "requires_grad and gradients of reachable vs unreachable parameters); Sequential output equals the "
+            "composition in registration order.",
+            "Cycles are not generated; zero_grad on frozen parameters is not asserted.",
+            "DESIGN.md 4/C12"),
+    "C13": ("model-based + statistical property testing (Hypothesis) over train/eval/forward histories",
+            "BatchNorm1d/2d histories (all constructor options, batches of any size/rank, loaded running statistics) "
+            "are compared after every call with a float64 reference state machine (outputs, running mean / unbiased "
+            "running variance, counter; eval calls byte-identical state and deterministic); Dropout histories check "
+            "the exact 0-or-x/(1-p) algebra, identity in eval, backward through the same mask, and seeded 6-sigma "
+            "tests of the zero rate, lag-1 and cross-call mask correlation.",
+            "Statistical assertions are 6-sigma with seeds drawn by Hypothesis; tolerance 2e-4 (float32) / 1e-9 (float64).",
+            "DESIGN.md 4/C13"),
     "C16": ("property-based differential + metamorphic testing (Hypothesis) with an enumerated geometry grid",
             "Generated-input search: the three im2col and three col2im implementations, extract_windows and "
             "place_windows are compared bit-wise against a brute-force loop reference, and the adjoint and "
